@@ -74,6 +74,7 @@ def xf_names(m, n, hermitian=False):
     names += ["equalmod", "constant", "rowgraded", "colgraded", "circulant_q", "toeplitz_q", "checker", "lay:F", "lay:T", "lay:view", "lay:ro",
               "negzero_col", "negated_checker", "nearcol", "depcol1",
               "allneg", "nonpos", "nearreal", "twodeps", "halfdep_top", "halfdep_bot"]
+    names += ["blockdiag1", "blockdiag2", "arrow", "zero_row1"]
     # nearly structured inputs at several magnitudes: structured part O(1), everything else scaled by 2^-e
     names += [f"near:{st}:{e}" for st in ("diag", "tridiag", "hess", "triu") for e in (20, 30, 40, 48)]
     if m == n:
@@ -186,6 +187,23 @@ def xf_build(name, m, n, fill, hermitian=False):
             h = m // 2
             rows = slice(0, h) if name == "halfdep_top" else slice(m - h, m)
             A[rows, 1] = O.qmul(A[rows, 0], np.broadcast_to(np.array([0.5, -1.0, 0.0, 2.0]), (A[rows, 0].shape[0], 4)))
+    elif name in ("blockdiag1", "blockdiag2"):  # exactly decoupled leading block of size 1 / 2 (reducible input), dense trailing block
+        k_ = 1 if name == "blockdiag1" else 2
+        A = base.copy()
+        A[k_:, :k_] = 0.0
+        A[:k_, k_:] = 0.0
+    elif name == "arrow":  # non-zero first row, first column and diagonal only
+        A = np.zeros_like(base)
+        A[0, :] = base[0, :]
+        A[:, 0] = base[:, 0]
+        for i in range(min(m, n)):
+            A[i, i] = base[i, i]
+    elif name == "zero_row1":  # an exactly-zero interior row (and, for Hermitian input, the matching column)
+        A = base.copy()
+        if m >= 2:
+            A[1, :] = 0.0
+            if hermitian:
+                A[:, 1] = 0.0
     elif name.startswith("near:"):
         _, st, e = name.split(":")
         keep = {"diag": lambda i, j: i == j, "tridiag": lambda i, j: abs(i - j) <= 1, "hess": lambda i, j: i <= j + 1, "triu": lambda i, j: i <= j}[st]
